@@ -59,3 +59,93 @@ def check_C18(tier):
         if not okk:
             raise ToolError("binding self-test failed")
     return res.finish()
+
+
+def evt_descriptor(rec, clause):
+    names = []
+    try:
+        names = [bytes(b[0]).decode("latin1") for b in rec.get("banks", [])]
+    except Exception:
+        pass
+    return {"family": "evt", "clause": clause, "kind": rec.get("kind"), "verdict": rec.get("verdict"),
+            "err": rec.get("err"), "run": rec.get("run"), "names": names[:12]}
+
+
+def full_config():
+    """Configuration trace with maps and calibration tables."""
+    path = os.path.join(BUILD, "config.json")
+    vh = build_harness("release")
+    import subprocess
+    p = subprocess.run([vh, "config", "--data", os.path.join(REPO, "physics", "data"), "--out", path],
+                       stdout=subprocess.PIPE, stderr=subprocess.STDOUT, text=True)
+    if p.returncode != 0:
+        raise ToolError("vh config failed: " + p.stdout[-500:])
+    os.environ["VCONFIG"] = path
+    return path
+
+
+def export_model_events(res, tier, maxbanks_mc, maxbanks_export):
+    cfg = write_cfg("MC_MainEvent_" + tier, constants={"MaxBanks": maxbanks_mc, "DupBySlot": "FALSE"}, invariants=["Agree"])
+    r = tlc_model_check("MC_MainEvent", cfg, "mc_mainevent_" + tier, expect_actions=["Next"], workers=8, timeout=3000)
+    res.add_mc(r)
+    cfg2 = write_cfg("MC_MainEvent_exp_" + tier, constants={"MaxBanks": maxbanks_export, "DupBySlot": "FALSE"},
+                     invariants=["Agree", "Export"])
+    r2 = run_tlc("MC_MainEvent", cfg2, "mc_mainevent_exp_" + tier, workers=8, coverage=False)
+    if r2["error"]:
+        raise ToolError("export failed: " + r2["error"])
+    beh = os.path.join(BUILD, "traces", "evt_beh_%s.ndjson" % tier)
+    n = extract_replay_to_file(r2, beh)
+    return beh, n
+
+
+def check_C10(tier):
+    res = Result("C10", tier, "model_checking")
+    res.rule = ("E1 (MC_MainEvent): every sequence of <= 4 (thorough 5) banks from 17 templates (wire banks: normal / "
+                "<= delay samples / data-less 16-byte / barrel-veto channel / malformed / name-payload mismatch; chunk "
+                "banks of a 2-chunk and a 1-chunk message incl. missing end flag, foreign board, malformed; TRG ok/bad; "
+                "ignored and unknown names): the implementation-shaped fold equals the order-free requirement on "
+                "verdict and occupied slots. E2: all sequences of <= 2 (3) templates concretised into real banks "
+                "(simulation run and run 11084); seeded events with one injected inconsistency (rename, swapped "
+                "payloads, duplicates incl. data-less ones, missing/duplicated TRG, BV channel, bit flip, unknown name, "
+                "dropped bank, board not installed) over run numbers {sim, 9277, 11084, 12000, 100, 2940, 4417, 6999, "
+                "9276}; a sweep with one element per event over all 256 wires and 1/64 (thorough: all 18432) pads for the "
+                "simulation run and run 11084. E3 (Trace_MainEvent): the requirement is recomputed from the bank bytes "
+                "(BankNames, AdcV3, PwbChunk, reassembly, PwbV2, TrgV3, map and calibration tables of the configuration "
+                "trace) and compared with verdict, timestamp, and through hook H1 every occupied slot: position, length "
+                "and values ((raw - baseline) x gain: exact for simulation, within rounding of the ppm gain otherwise). "
+                "distinct_nontrivial = distinct (kind, run, verdict, error class) combinations")
+    res.assumptions = ["MainEvent.tla and the modules it composes are the reference semantics",
+                       "map tables are recorded through the public map API; calibration tables by the harness's own reader of the shipped data files",
+                       "left open (not judged): duplicates involving a data-less 16-byte wire packet; PWB payload identity differing from its chunk headers"]
+    full_config()
+    beh, nb = export_model_events(res, tier, 4 if tier == "quick" else 5, 3 if tier == "quick" else 4)
+    trace = os.path.join(BUILD, "traces", "C10_trace.ndjson")
+    n = 300 if tier == "quick" else 6000
+    stride = 64 if tier == "quick" else 1
+    res.evaluations += run_vh(["evt", "--in", beh, "--n", str(n), "--stride", str(stride), "--seed", str(seed())], trace,
+                              timeout=7200)
+    for k, part in enumerate(split_file(trace, 2500)):
+        validate_dec_trace(res, part, "C10_%d" % k, module="Trace_MainEvent", descriptor=evt_descriptor)
+    kinds = set()
+    with open(trace) as f:
+        for line in f:
+            rec = json.loads(line)
+            kinds.add((rec.get("kind"), tuple(rec.get("run", [])), rec.get("verdict"), rec.get("err")))
+            if len(res.samples) < 3 and rec.get("verdict") == "ok" and rec.get("wires") and len(line) < 6000:
+                res.add_sample(slim(rec, 16), 3)
+    res.distinct = len(kinds)
+    res.extra["model_sequences_replayed"] = nb
+    if tier == "thorough":
+        for line in open(trace):
+            rec = json.loads(line)
+            if rec.get("verdict") == "ok" and rec.get("wires"):
+                break
+        rec["wires"][0][0] = (rec["wires"][0][0] + 1) % 256
+        p2 = trace + ".selftest"
+        open(p2, "w").write(json.dumps(rec) + "\n")
+        _, mism, _ = tlc_validate("Trace_MainEvent", p2, "C10_self")
+        okk = any(m[0] == rec["i"] for m in mism)
+        res.extra["binding_selftest"] = {"corrupted_record": rec["i"], "rejected": okk, "how": "moved one wire signal to the neighbouring wire"}
+        if not okk:
+            raise ToolError("binding self-test failed")
+    return res.finish()
